@@ -15,6 +15,14 @@ def design_level(ctx, q):
     for c in (["rawtx_quick"] if q else ["rawtx_thorough", "rawtx_thorough2"]):
         ctx.tlc_must_hold(cc.SUB, "MC_ChainIndex", cfg="MC_ChainIndex_%s.cfg" % c, workers=4, timeout=900 if q else 3000,
                           label="trees + txs (repository level), exhaustive")
+    # the delivery loop of a subscription: Read and Wait are separate steps, imports fall between them; with the waiter
+    # created before the first Read a sleeping subscription has delivered everything, created at the wait it has not
+    ctx.tlc_must_hold(cc.SUB, "ChainIndexPipe", cfg="MC_ChainIndexPipe.cfg", workers=2, timeout=300,
+                      label="pipe: quiescent => delivered, eventually on best")
+    r = ctx.tlc(cc.SUB, "ChainIndexPipe", cfg="MC_ChainIndexPipe_late.cfg", workers=2, timeout=300, count=False,
+                label="waiter created after the read: must be violated")
+    if r.invariant != "QuiescentDelivered":
+        raise Infra("the late-waiter variant of the pipe was not caught: %s" % (r.invariant or r.error or "no violation"))
     # the invariants have teeth: with the conflict ordinal left out of the index version they fail
     r = ctx.tlc(cc.SUB, "MC_ChainIndex", cfg="MC_ChainIndex_broken.cfg", workers=2, timeout=300, count=False,
                 label="deliberately broken design (conflicts ignored): must be violated")
@@ -43,7 +51,9 @@ def run(ctx):
     # With hooks/subscriptions.patch in the tree the subscription readers are also driven Read by Read (AddBlocks between
     # the individual reads of block / beat / beat2 readers that share the handler's caches)
     hooked = os.path.exists(os.path.join(ctx.repo, "api/subscriptions/verif_hooks.go"))
-    tags = "verif,verifsubs" if hooked else "verif"
+    piped = hooked and "VerifServe" in open(os.path.join(ctx.repo, "api/subscriptions/verif_hooks.go")).read()
+    tags = "verif,verifsubs,verifpipe" if piped else "verif,verifsubs" if hooked else "verif"
+    ctx.cov["subscription_pipe_wrapped"] = piped
     step = ["-substep"] if hooked else []
     ctx.cov["subscription_readers_stepped"] = hooked
 
@@ -93,6 +103,8 @@ def run(ctx):
     shapes = {k: sum(s.get(k, 0) for s in all_stats) for k in
               ("readsFromAboveBest", "readsFromSiblingOneBelow", "addsOnSideBranchTip", "subscriptions",
                "subscriptionMessages", "subscriptionObsolete", "reopens")}
+    if piped:
+        shapes["importsBetweenReadAndWait"] = sum(s.get("importsBetweenReadAndWait", 0) for s in all_stats)
     if hooked:
         for k in ("steppedSubscriptionReaders", "steppedSubscriptionReads"):
             shapes[k] = sum(s.get(k, 0) for s in all_stats)
